@@ -197,3 +197,66 @@ Print Assumptions C11_labels_exist.
 Print Assumptions C11_row.
 Print Assumptions C11_error.
 Print Assumptions C11_cigar.
+
+(* ==================================================================================================================================
+   APPENDED: THE SEEDING HALF IN EXACT ARITHMETIC (model/Correlate.v; proofs/CorrelateProofs1-4.v)
+
+   The header above lists "bit-vector reversal in getSequence, FFT cross-correlation ..." as not proved.  The exact-arithmetic part of
+   it now is proved: on the lattice of the property's quantifier, BINNING IS MIRROR-SYMMETRIC.
+     on_grid res D ps   :=  ps ascending, every label a multiple of res, the first label at 0 and the last at D, all within [0, D]
+                            (a trimmed molecule: D = mlen q - K is its last coordinate, hence a multiple of res as well)
+     C11_sequence_mirror   getSequence(mirror q, '-') = getSequence(q, '+')  as vectors (vectorise, blur, reversal), any blur radius;
+     C11_seeding_mirror    hence, against ANY reference vector, the integer cross-correlation, scipy's `correlate` (model
+                           correlate_valid, both branches) and the normalised correlation are EQUAL lists; the whole of
+                           getInitialAlignment up to find_peaks (initial_correlation) and of refine up to find_peaks
+                           (refine_correlation: same window start/end, same correlation) coincide, with the same exceptions.
+   So everything find_peaks receives is identical in exact arithmetic for q on '+' and mirror(q) on '-'.  What remains unproved is
+   only that the FLOATING-POINT FFT output is identical as well (the two calls hand scipy the same arrays, so in fact it is: scipy is
+   deterministic; this is measured by the end-to-end stream, not proved) and find_peaks itself.
+   Off the lattice the two vectors differ: C11_off_lattice_differs.
+   Units: any (positions and resolution in the same unit; in Pairing.v's tenths of a bp the primary resolution is 14000). *)
+Require Import Vec Peaks Correlate CorrelateProofs1 CorrelateProofs3 CorrelateProofs4.
+
+Theorem C11_sequence_mirror q res r : 1 <= res -> on_grid res (mlen q - K) (mpositions q) ->
+  get_sequence (mpositions (mirror_map q)) res r true 0 None = get_sequence (mpositions q) res r false 0 None.
+Proof. exact (mirror_sequence q res r). Qed.
+
+Theorem C11_seeding_mirror q res r : 1 <= res -> 0 <= r -> on_grid res (mlen q - K) (mpositions q) ->
+  (forall refv, xcorr refv (get_sequence (mpositions (mirror_map q)) res (Z.to_nat r) true 0 None) = xcorr refv (get_sequence (mpositions q) res (Z.to_nat r) false 0 None) /\
+                correlate_valid refv (get_sequence (mpositions (mirror_map q)) res (Z.to_nat r) true 0 None) = correlate_valid refv (get_sequence (mpositions q) res (Z.to_nat r) false 0 None) /\
+                normalised refv (get_sequence (mpositions (mirror_map q)) res (Z.to_nat r) true 0 None) = normalised refv (get_sequence (mpositions q) res (Z.to_nat r) false 0 None)) /\
+  (forall rlen rps, initial_correlation (mlen (mirror_map q)) (mpositions (mirror_map q)) rlen rps res r true = initial_correlation (mlen q) (mpositions q) rlen rps res r false) /\
+  (forall rps peak res2 r2 margin, 1 <= res2 -> 0 <= r2 -> on_grid res2 (mlen q - K) (mpositions q) ->
+     refine_correlation (mlen (mirror_map q)) (mpositions (mirror_map q)) rps true peak res2 r2 margin = refine_correlation (mlen q) (mpositions q) rps false peak res2 r2 margin).
+Proof. exact (mirror_seeding q res r). Qed.
+
+(* the lattice hypothesis in the vocabulary of C11_align_lattice: a trimmed molecule with strictly ascending lattice labels is on the grid *)
+Theorem C11_on_grid step q : StronglySorted Z.lt (mpositions q) -> on_lattice step (mpositions q) ->
+  hd 0 (mpositions q) = 0 -> last (mpositions q) 0 = mlen q - K -> mpositions q <> [] -> on_grid step (mlen q - K) (mpositions q).
+Proof. exact (lattice_on_grid step q). Qed.
+
+(* ---- non-vacuity: the molecule of C11_nonvacuous (lattice 1400 bp = 14000 units) at the primary resolution 1400 bp / blur 1 ---- *)
+Example C11_sequence_nonvacuous :
+  on_grid 14000 (mlen exQ - K) (mpositions exQ) /\
+  get_sequence (mpositions exQ) 14000 1 false 0 None = [1;1;1;1;1;0;0;0;0;0;1;1;1;1;1;1] /\
+  get_sequence (mpositions (mirror_map exQ)) 14000 1 true 0 None = [1;1;1;1;1;0;0;0;0;0;1;1;1;1;1;1] /\
+  get_sequence (mpositions (mirror_map exQ)) 14000 1 false 0 None <> get_sequence (mpositions exQ) 14000 1 false 0 None /\
+  match initial_correlation (mlen exQ) (mpositions exQ) (mlen exRef) (mpositions exRef) 14000 1 false with
+  | Ok (Some (c, n2)) => c = [11; 11] /\ n2 = [27; 27] /\ initial_correlation (mlen exQ) (mpositions (mirror_map exQ)) (mlen exRef) (mpositions exRef) 14000 1 true = Ok (Some (c, n2))
+  | _ => False end.
+Proof.
+  split; [apply (lattice_on_grid 14000 exQ); [repeat constructor | | reflexivity | reflexivity | discriminate];
+          unfold on_lattice; repeat (apply Forall_cons; [match goal with |- (_ | ?p) => exists (p / 14000); reflexivity end|]); apply Forall_nil|].
+  vm_compute. repeat split; try reflexivity. discriminate. Qed.
+(* off the lattice (labels 0, 15, 60 bp; resolution 10 bp, blur 1) the two vectors, and their correlations against a reference, differ *)
+Example C11_off_lattice_differs :
+  let q := mkMap 7 610 [0; 150; 600] 0 in
+  mpositions (mirror_map q) = [0; 450; 600] /\
+  get_sequence (mpositions q) 100 1 false 0 None = [1;1;1;0;0;1;1] /\
+  get_sequence (mpositions (mirror_map q)) 100 1 true 0 None = [1;1;1;1;0;1;1] /\
+  xcorr [1;1;1;1;1;1;1;1] (get_sequence (mpositions q) 100 1 false 0 None) <> xcorr [1;1;1;1;1;1;1;1] (get_sequence (mpositions (mirror_map q)) 100 1 true 0 None).
+Proof. vm_compute. repeat split; try reflexivity. discriminate. Qed.
+
+Print Assumptions C11_sequence_mirror.
+Print Assumptions C11_seeding_mirror.
+Print Assumptions C11_on_grid.
